@@ -182,29 +182,6 @@ WFAsPF(o)  == [lossy |-> FALSE, exp |-> o.exp, point |-> o.point, nan |-> o.nan,
 
 IsDefaultDigits(o) == o.max = 0 /\ o.min = 0
 
-WriteFloatDecimalWhy(ev, f, o) ==
-    LET r  == ev.res
-        F  == FOf(ev.ty)
-        v  == ev.v
-        out == r.out
-        n  == Len(out)
-        sc == ScanComplete("float", f, WFAsPF(o), out, n)
-        sd == SigDigits(sc, f)
-        M  == FromDec(v.m)
-        maxd == IF ev.ty = "f32" THEN 9 ELSE 17
-    IN  IF v.cls = "nan" THEN (IF out = o.nan THEN "" ELSE "NaN not written as the configured string")
-        ELSE IF v.cls = "inf" THEN
-            (IF out = (IF v.neg THEN << CMinus >> ELSE << >>) \o o.inf THEN "" ELSE "infinity not written as [-]inf string")
-        ELSE IF sc.v # "A" THEN "output is not a number of the format: " \o sc.why
-        ELSE IF sc.neg # v.neg THEN "sign of the output differs from the sign of the value"
-        ELSE IF v.cls = "zero" THEN (IF sd.n = 0 THEN "" ELSE "zero written with non-zero digits")
-        ELSE IF sd.n = 0 THEN "non-zero value written as zero"
-        ELSE IF ~RoundTrips(F, FromDec(sd.d), sd.k, M, v.e) THEN "output does not round-trip to the value"
-        ELSE IF ev.feat.compact THEN (IF sd.n <= maxd THEN "" ELSE "more than 17 / 9 significant digits")
-        ELSE IF ~IsShortest(F, sd.d, sd.n, sd.k, M, v.e) THEN "a shorter digit string round-trips"
-        ELSE IF ~IsClosest(F, sd.d, sd.n, sd.k, M, v.e) THEN "another digit string of the same length is closer"
-        ELSE ""
-
 (* Rust's {:e} output is shortest too: its digit string must satisfy the same predicates *)
 StdWriteFloatDispute(ev, f) ==
     LET F  == FOf(ev.ty)
@@ -217,17 +194,78 @@ StdWriteFloatDispute(ev, f) ==
                  /\ IsShortest(F, sd.d, sd.n, sd.k, M, v.e) /\ IsClosest(F, sd.d, sd.n, sd.k, M, v.e),
                "SPEC", "Rust std's shortest output does not satisfy the specification's predicates")
 
+IsPow2Radix(r) == r \in {2, 4, 8, 16, 32}
+
+(* the value M * 2^e is an integer below 2^p: it then equals mo * 2^eo with mo odd and eo >= 0 *)
+(* (mo, eo: the worker's odd-mantissa decomposition, cross-checked here against (m, e))        *)
+OddFormConsistent(v) == Mul(FromDec(v.mo), Pow2(v.eo - v.e)) = FromDec(v.m)
+IsSmallInteger(F, v) == v.eo >= 0 /\ v.e <= 0
+
+WriteFloatFiniteWhy(ev, f, o, sc) ==
+    LET r    == ev.res
+        F    == FOf(ev.ty)
+        v    == ev.v
+        M    == FromDec(v.m)
+        lay  == Layout(sc, f)
+        rdx  == Radix(f)
+        maxd == IF ev.ty = "f32" THEN 9 ELSE 17
+        k    == lay.se - lay.n + 1
+    IN  IF lay.n = 0 /\ (rdx = 10 \/ IsPow2Radix(rdx))
+        THEN << << (IF rdx = 10 THEN "C02" ELSE "C06"), "non-zero value written as zero" >> >>
+        ELSE IF ~IsDefaultDigits(o) THEN << >>                       \* digits judged by the C14 relation
+        ELSE IF rdx = 10 /\ ExponentBase(f) = 10 THEN
+            IF ~RoundTrips(F, FromDec(lay.d), k, M, v.e) THEN << << "C02", "output does not round-trip to the value" >> >>
+            ELSE IF ev.feat.compact THEN V(lay.n <= maxd, "C02", "more than 17 / 9 significant digits")
+            ELSE IF ~IsShortest(F, lay.d, lay.n, k, M, v.e) THEN << << "C02", "a shorter digit string round-trips" >> >>
+            ELSE V(IsClosest(F, lay.d, lay.n, k, M, v.e), "C02", "another digit string of the same length is closer")
+        ELSE IF IsPow2Radix(rdx) THEN
+            V(ExactlyEqual(FloatExact(sc, f), M, v.e), "C06", "output does not denote exactly the float's value")
+        ELSE
+            LET x == FloatExact(sc, f) IN
+            IF ~OddFormConsistent(v) THEN << << "SPEC", "worker decomposition inconsistent" >> >>
+            ELSE IF IsSmallInteger(F, v) THEN V(ExactlyEqual(x, M, v.e), "C07", "integer below 2^p not written exactly")
+            ELSE V(WithinUlps(x, M, v.e, IF ev.ty = "f32" THEN 256 ELSE 2048), "C07", "output farther from the float than the documented bound")
+
+(* notation, digit counts, punctuation: judged on the output itself *)
+WriteFloatLayoutWhy(ev, f, o, sc) ==
+    LET lay == Layout(sc, f)
+        sci == sc.hasExp
+        epos == SegLo(sc.segs, "echar", 1)
+        decimal == Radix(f) = 10 /\ ExponentBase(f) = 10
+        atBreak == lay.se = o.neg \/ lay.se = o.pos
+        wantSci == ~f.no_exponent_notation /\ (f.required_exponent_notation \/ lay.se < o.neg \/ lay.se > o.pos)
+        trimmedInt == o.trim /\ ~sc.hasPoint
+    IN  V(~(sci /\ f.no_exponent_notation), "C14", "exponent notation used although the format forbids it")
+     \o V(f.required_exponent_notation /\ ~f.no_exponent_notation => sci, "C14", "exponent notation required by the format but not used")
+     \o (IF decimal /\ lay.n > 0 /\ ~f.required_exponent_notation /\ ~f.no_exponent_notation /\ ~atBreak
+         THEN V(sci = wantSci, "C14", IF sci THEN "exponent notation used inside the break points" ELSE "positional notation used outside the break points")
+         ELSE << >>)
+     \o V(sci => ev.res.out[epos] = o.exp, "C14", "exponent character differs from the configured one")
+     \o V(o.max > 0 /\ lay.n > 0 => lay.n <= o.max, "C14", "more significant digits than max_significant_digits")
+     \o V(o.min > 0 /\ lay.n > 0 /\ ~trimmedInt => lay.total >= o.min, "C14", "fewer significant digits than min_significant_digits")
+     \o V(f.required_exponent_sign /\ sci => sc.esign # 0, "C08", "required exponent sign not written")
+
 WriteFloatContract(ev) ==
     LET f  == FmtOf(ev)
         o  == WFOpts(ev)
         r  == ev.res
-        ab == WriteAbnormal(ev)
-    IN  IF ab # << >> THEN ab
+        v  == ev.v
+        specialOff == (v.cls = "nan" /\ o.nan = << >>) \/ (v.cls = "inf" /\ o.inf = << >>)
+    IN  IF ~ev.opts_valid THEN (IF r.k \in {"ok", "panic"} THEN << >> ELSE << << "C09", "write call did not return: " \o r.k >> >>)
+        ELSE IF specialOff THEN V(r.k = "panic", "C15", "special value written although its string is disabled")
+        ELSE LET ab == WriteAbnormal(ev) IN
+        IF ab # << >> THEN ab
         ELSE IF r.k # "ok" THEN << >>
         ELSE V(AllAscii(r.out, 1), "C17", "non-ASCII byte written")
-          \o (IF Radix(f) = 10 /\ ExponentBase(f) = 10 /\ IsDefaultDigits(o)
-              THEN LET w == WriteFloatDecimalWhy(ev, f, o) IN V(w = "", "C02", w)
-              ELSE << >>)
+          \o (IF v.cls = "nan" THEN V(r.out = o.nan, "C15", "NaN not written as the configured string (or written with a sign)")
+              ELSE IF v.cls = "inf" THEN V(r.out = (IF v.neg THEN << CMinus >> ELSE << >>) \o o.inf, "C15", "infinity not written as [-]inf string")
+              ELSE LET sc == ScanComplete("float", f, WFAsPF(o), r.out, Len(r.out)) IN
+                   IF sc.v = "U" THEN << >>
+                   ELSE IF sc.v # "A" THEN << << (IF Radix(f) = 10 \/ IsPow2Radix(Radix(f)) THEN "C08" ELSE "C07"),
+                                                "output is not a number of the format: " \o sc.why >> >>
+                   ELSE IF sc.neg # v.neg THEN << << "C15", "sign of the output differs from the sign of the value" >> >>
+                   ELSE IF v.cls = "zero" THEN V(Layout(sc, f).n = 0, "C15", "zero written with non-zero digits")
+                   ELSE WriteFloatFiniteWhy(ev, f, o, sc) \o WriteFloatLayoutWhy(ev, f, o, sc))
 
 (***************************************************************************)
 (* per-event contract                                                      *)
@@ -264,7 +302,8 @@ SameRes(a, b) ==
 SameCall(a, b) ==
     /\ a.op = b.op /\ a.ty = b.ty /\ a.fmt = b.fmt /\ a.wo = b.wo /\ a.opts = b.opts
     /\ (a.op = "parse" => a.in = b.in)
-    /\ (a.op = "write" => a.val = b.val)
+    /\ (a.op = "write" => a.val = b.val /\ ("buflen" \in DOMAIN a) = ("buflen" \in DOMAIN b)
+                          /\ ("buflen" \in DOMAIN a => a.buflen = b.buflen))
 
 (* Each relation is written from the point of view of one event b = o[i] (the partial call, the  *)
 (* facade call, the parse-back, the lossy call, the call in the other configuration) against     *)
@@ -307,7 +346,14 @@ FacadeEqualsCoreAt(o, i) ==
            /\ (a.op = "write" => a.buflen >= Need(a)))
         => SameRes(a.res, b.res)
 
-(* C08 (and the compact clause of C16): what was written parses back to the same value *)
+(* C08 (and the compact clause of C16): what was written parses back, and to the same value    *)
+(* for integers, signed zeros, infinities, and decimal / power-of-two floats without digit      *)
+(* truncation; NaN reads back as NaN; elsewhere only acceptance is required                     *)
+ExactBack(w) ==
+    IF ~IsFloatTy(w.ty) THEN TRUE
+    ELSE IF w.v.cls # "finite" THEN TRUE
+    ELSE LET f == FmtOf(w) IN (Radix(f) = 10 \/ IsPow2Radix(Radix(f))) /\ WFOpts(w).max = 0
+
 RoundTripAt(o, i) ==
     LET q == o[i] IN
     (q.op = "parse" /\ "back" \in DOMAIN q /\ ~q.partial) =>
@@ -315,7 +361,52 @@ RoundTripAt(o, i) ==
         LET w == o[j] IN
         (w.op = "write" /\ w.res.k = "ok" /\ q.ty = w.ty /\ q.in = w.res.out /\ q.back = w.id)
         => /\ q.res.k = "ok"
-           /\ (q.exact => SameVal(q.res.v, w.v))
+           /\ (ExactBack(w) => SameVal(q.res.v, w.v))
+
+(* C14: digits under max/min_significant_digits follow from the default output of the same float *)
+WFScan(ev) == ScanComplete("float", FmtOf(ev), WFAsPF(WFOpts(ev)), ev.res.out, Len(ev.res.out))
+
+DigitsFollow(a, b) ==
+    LET f  == FmtOf(b)
+        sa == WFScan(a)
+        sb == WFScan(b)
+        la == Layout(sa, f)
+        lb == Layout(sb, f)
+        m  == b.opts.max
+        ex == IF m > 0 /\ m < la.n THEN RoundDigits(la.d, la.n, m, Radix(f), b.opts.round)
+              ELSE [d |-> la.d, carried |-> FALSE]
+    IN  (sa.v = "A" /\ sb.v = "A" /\ la.n > 0) =>
+           /\ lb.d = StripTrailing(ex.d)
+           /\ (Radix(f) = ExponentBase(f) => lb.se = la.se + (IF ex.carried THEN 1 ELSE 0))
+
+OptionsRelationAt(o, i) ==
+    LET b == o[i] IN
+    (b.op = "write" /\ IsFloatTy(b.ty) /\ b.wo /\ b.opts_valid /\ b.res.k = "ok" /\ b.v.cls = "finite"
+       /\ (b.opts.max > 0 \/ b.opts.min > 0)) =>
+    \A j \in Others(o, i) :
+        LET a == o[j] IN
+        (a.op = "write" /\ a.ty = b.ty /\ a.fmt = b.fmt /\ a.cfg = b.cfg /\ a.api = b.api /\ a.val = b.val
+           /\ a.wo /\ a.res.k = "ok" /\ a.opts = [b.opts EXCEPT !.max = 0, !.min = 0, !.trim = FALSE])
+        => DigitsFollow(a, b)
+
+(* C14: trim_floats removes exactly the point and the zero fraction of integral outputs *)
+RemoveRange(s, lo, hi) == SubSeq(s, 1, lo - 1) \o SubSeq(s, hi + 1, Len(s))
+TrimFollows(c, b) ==
+    LET sc == WFScan(c)
+        pp == SegLo(sc.segs, "point", 1)
+        fh == SegHi(sc.segs, "frac", Len(sc.segs))
+        integral == sc.hasPoint /\ AllZero(sc.frac, 1, Len(sc.frac))
+    IN  sc.v = "A" =>
+          b.res.out = (IF integral THEN RemoveRange(c.res.out, pp, IF fh = 0 THEN pp ELSE fh) ELSE c.res.out)
+
+TrimRelationAt(o, i) ==
+    LET b == o[i] IN
+    (b.op = "write" /\ IsFloatTy(b.ty) /\ b.wo /\ b.opts_valid /\ b.res.k = "ok" /\ b.v.cls \in {"finite", "zero"} /\ b.opts.trim) =>
+    \A j \in Others(o, i) :
+        LET c == o[j] IN
+        (c.op = "write" /\ c.ty = b.ty /\ c.fmt = b.fmt /\ c.cfg = b.cfg /\ c.api = b.api /\ c.val = b.val
+           /\ c.wo /\ c.res.k = "ok" /\ c.opts = [b.opts EXCEPT !.trim = FALSE])
+        => TrimFollows(c, b)
 
 (* inputs certainly decided by the exact fast path: decimal, significand <= 2^p, not truncated, *)
 (* |exponent| no larger than the largest exactly representable power of ten                    *)
@@ -364,6 +455,8 @@ RelationsAt(o, i) ==
     \o V(FacadeEqualsCoreAt(o, i),   "C17", "lexical and lexical-core disagree")
     \o V(RoundTripAt(o, i),          "C08", "written bytes do not parse back to the same value")
     \o V(LossyAgreesAt(o, i),        "C19", "lossy parsing changed more than the precision")
+    \o V(OptionsRelationAt(o, i),    "C14", "digits are not the default digits rounded to max_significant_digits")
+    \o V(TrimRelationAt(o, i),       "C14", "trim_floats did not remove exactly the '.0' of an integral output")
 
 (***************************************************************************)
 (* the walk                                                                *)
